@@ -163,7 +163,8 @@ def decode_cells(line):
 # ------------------------------------------------------------------ generators (hook level)
 
 TEXT_ATOMS = ["a", "b", "xyz", " ", "0", ";", "m", "[", "]", "\\", "é", "日本", "✓", "🙂", "ß", "\t",
-              "é", "​", "ﾊ", "한", "-", "+", "@@", "\x07", "\x18", "\x1a", "\x7f", "\x01", "\r"]
+              "é", "​", "ﾊ", "한", "-", "+", "@@", "\x07", "\x18", "\x1a", "\x7f", "\x01", "\r",
+              "\u1100\uac00"]  # last: one cluster of width 4 (Hangul jamo + syllable)
 SGR_FORMS = ["", "0", "1", "31", "32", "1;31", "1;32", "7", "2", "3", "4", "4:3", "4:0", "5", "6", "8", "9",
              "38;5;{n}", "48;5;{n}", "38;2;{r};{g};{b}", "48;2;{r};{g};{b}", "38:5:{n}", "38:2:{r}:{g}:{b}",
              "38:2::{r}:{g}:{b}", "48:2::{r}:{g}:{b}", "9{k}", "10{k}", "3{k}", "4{k}", "22", "39", "49", "21",
